@@ -8,6 +8,7 @@ CONSTANTS
   BaseKey = FALSE
   AliasProps = TRUE
   CacheBeforeMember = FALSE
+  NoImportFallback = FALSE
   Faults = FALSE
 INVARIANT PureResults
 INVARIANT KeyInjective
